@@ -10,8 +10,12 @@ Independently, the implementation's answers (= the model's, by the above) are
 compared with an exact oracle built on a different method
 (harness/c01_util.py: Fraction clipping + slanted-ray crossing count).
 """
+import concurrent.futures as cf
 import math
+import os
 import re
+import shutil
+import tempfile
 import time
 
 import numpy as np
@@ -50,17 +54,65 @@ def arr_ty(kind):
     return ('fixarr' if kind == 'point' else 'listarr') + ' * list nat * list box'
 
 
+def arr1_ty(kind):
+    return ('fixarr' if kind == 'point' else 'listarr') + ' * list box'
+
+
 class Acc:
-    """cases collected for the Coq kernel, one job list per model function"""
+    """cases for the Coq kernel; shards are written and started in the background as soon as a
+    family is complete, so that the kernel works while the next family runs the real library"""
+    COST = {'point': 3, 'multipoint': 12, 'line': 45, 'ring': 55, 'multiline': 110, 'polygon': 110,
+            'multipolygon': 200}
 
     def __init__(self):
-        self.jobs = {}
+        self.pending = {}
+        self.running = []
+        self.workdir = tempfile.mkdtemp(prefix='sp_c01_')
+        self.ex = cf.ThreadPoolExecutor(max_workers=C.NCPU)
+        self.k = 0
+        self.ncases = 0
 
-    def add(self, fn, cty, rty, case, result, meta):
-        j = self.jobs.setdefault((fn, cty, rty), ([], [], []))
-        j[0].append(case)
-        j[1].append(result)
-        j[2].append(meta)
+    def add(self, fn, cty, rty, case, result, meta, weight=1):
+        j = self.pending.setdefault((fn, cty, rty), [])
+        j.append((case, result, meta, weight))
+        self.ncases += 1
+
+    def flush(self, target=400000.0):
+        """target: estimated micro-seconds of kernel time per shard"""
+        for (fn, cty, rty), items in self.pending.items():
+            cur, w = [], 0.0
+            for it in items + [None]:
+                if it is not None:
+                    cur.append(it)
+                    w += it[3]
+                if cur and (it is None or w >= target):
+                    self.k += 1
+                    path = C._shard_file(self.workdir, self.k, IMPORTS, fn, cty, rty,
+                                         [(c, r) for c, r, _, _ in cur])
+                    fut = self.ex.submit(C._run_coqc, path, 1500)
+                    self.running.append((fut, path, fn, cur))
+                    cur, w = [], 0.0
+        self.pending = {}
+
+    def collect(self):
+        """-> list of (fn, case, result, meta) on which the kernel-evaluated model differs"""
+        self.flush()
+        bad = []
+        try:
+            for fut, path, fn, cur in self.running:
+                rc, out, err = fut.result()
+                if rc != 0:
+                    keep = os.path.join(C.VERIF, 'build', 'failed_c01_' + os.path.basename(path))
+                    os.makedirs(os.path.dirname(keep), exist_ok=True)
+                    shutil.copy(path, keep)
+                    raise C.ModelUnavailable(f"coqc failed on {keep}: {err[-2000:]}")
+                for i in C.parse_zlist(out):
+                    c, r, m, _ = cur[i]
+                    bad.append((fn, c, r, m))
+        finally:
+            self.ex.shutdown(wait=False, cancel_futures=True)
+            shutil.rmtree(self.workdir, ignore_errors=True)
+        return bad
 
 
 def opt(v):
@@ -71,9 +123,13 @@ def opt(v):
 # implementation side
 # ----------------------------------------------------------------------------
 def impl_array(arr, b, inds_np):
-    """(whole-array result, at-inds result) as bool arrays; an exception -> ('raised', ..)"""
+    """(whole-array result, at-inds result) as bool arrays; an exception -> ('raised', ..);
+    inds_np None: only the whole-array form (second component None)"""
     out = []
     for ii in (None, inds_np):
+        if ii is None and out:
+            out.append(None)
+            break
         try:
             r = arr.intersects_bounds(b) if ii is None else arr.intersects_bounds(b, ii)
             out.append(np.asarray(r, dtype=bool))
@@ -129,7 +185,7 @@ def physical_elements(elems, how, junk):
 
 def run_family(rep, acc, kind, elements, boxes, tag, junk, chunk=256, batch=160,
                scalar_boxes=16, scalar_stride=1, oracle_stride=0, classify_stride=0,
-               subtypes=G.SUBTYPES):
+               subtypes=G.SUBTYPES, both_every=4):
     """one enumeration family: every element x every box, through all forms"""
     rng = rep.rng
     nb = len(boxes)
@@ -151,22 +207,26 @@ def run_family(rep, acc, kind, elements, boxes, tag, junk, chunk=256, batch=160,
             st = subtypes[(ci + bj) % len(subtypes)]
             if st not in arrays:
                 arr = U.build(kind, phys, st, deriv)
-                arrays[st] = (arr, export(kind, arr))
+                arrays[st] = (arr, C.Raw(C.coq(export(kind, arr))))
             arr, rec = arrays[st]
             bb = boxes[blo:blo + batch]
+            both = bj % both_every == 0     # the at-inds form on every both_every-th batch
             results = []
             meta = {'kind': kind, 'subtype': st, 'elements': phys, 'derivation': deriv,
                     'inds': inds, 'family': tag}
             for b in bb:
-                r1, r2 = impl_array(arr, b, inds_np)
+                r1, r2 = impl_array(arr, b, inds_np if both else None)
                 for form, r in (('array', r1), ('inds', r2)):
                     if isinstance(r, tuple):
                         viol(rep, f'raises:{kind}:{form}', f'{kind} intersects_bounds ({form} form) raised '
                              f'{r[1]}: {r[2]}', {**meta, 'box': list(b), 'impl': list(r),
                                                  'repro': repro(kind, phys, st, deriv, b, inds if form == 'inds' else None)})
                 ok1, ok2 = not isinstance(r1, tuple), not isinstance(r2, tuple)
-                results.append((opt(U.pack_np(r1)) if ok1 else None, opt(U.pack_np(r2)) if ok2 else None))
-                if ok1 and ok2:
+                if both:
+                    results.append((opt(U.pack_np(r1)) if ok1 else None, opt(U.pack_np(r2)) if ok2 else None))
+                else:
+                    results.append(opt(U.pack_np(r1)) if ok1 else None)
+                if both and ok1 and ok2:
                     # the two array forms must agree, observed directly
                     if not (len(r1) == n and np.array_equal(r1[inds], r2)):
                         viol(rep, f'forms-differ:{kind}:inds',
@@ -177,7 +237,7 @@ def run_family(rep, acc, kind, elements, boxes, tag, junk, chunk=256, batch=160,
                     ob = U.orient(b)
                     deg = ob[0] == ob[2] or ob[1] == ob[3]
                     key = ob
-                    p1 = results[-1][0].v
+                    p1 = (results[-1][0] if both else results[-1]).v
                     if key in canon and canon[key][0] != p1:
                         viol(rep, f'corner-order:{kind}',
                              f'{kind}: result depends on the order of the box corners',
@@ -199,15 +259,22 @@ def run_family(rep, acc, kind, elements, boxes, tag, junk, chunk=256, batch=160,
                     if classify_stride and not deg:
                         for i in range((bj * 7 + blo) % classify_stride, n, classify_stride):
                             rep.count(f'{kind}:' + U.classify(kind, elems[i], b))
-            case = (rec, [C.Nat(i) for i in inds], U.boxes_raw(bb))
             meta['boxes'] = [list(b) for b in bb]
-            acc.add(f'run_array_packed {MODEL_FN[kind]}', arr_ty(kind), ARR_RES_TY, case, results, meta)
+            meta['both'] = both
+            w = Acc.COST[kind] * n * len(bb)
+            if both:
+                acc.add(f'run_array_packed {MODEL_FN[kind]}', arr_ty(kind), ARR_RES_TY,
+                        (rec, [C.Nat(i) for i in inds], U.boxes_raw(bb)), results, meta, 2 * w)
+            else:
+                acc.add(f'run_array1_packed {MODEL_FN[kind]}', arr1_ty(kind), 'list (option Z)',
+                        (rec, U.boxes_raw(bb)), results, meta, w)
             rep.evaluations += 1
             rep.count(f'cases:{kind}')
             rep.count(f'subtype:{st}')
             if deriv:
                 rep.count('derived_buffers')
-            if any(r[0] is not None and 1 < bin(r[0].v).count('1') <= n for r in results):
+            firsts = [r[0] if both else r for r in results]
+            if any(r is not None and 1 < bin(r.v).count('1') <= n for r in firsts):
                 rep.nontrivial((kind, st, tag, ci, bj))
         # scalar form, on the last array built, against the array form of the same box
         arr, _ = arrays[st]
@@ -248,7 +315,7 @@ def run_family(rep, acc, kind, elements, boxes, tag, junk, chunk=256, batch=160,
             acc.add(f'run_scalar_packed {SCALAR_FN[kind]}', 'nat * listarr * list box', 'option Z',
                     (nbuf, srec, U.boxes_raw(sb)), res,
                     {'kind': kind, 'form': 'scalar', 'element': elems[i], 'boxes': [list(b) for b in sb],
-                     'subtype': st, 'family': tag})
+                     'subtype': st, 'family': tag}, Acc.COST[kind] * len(sb))
             rep.count(f'scalar_cases:{kind}')
 
 
@@ -274,7 +341,7 @@ def scalar_point(rep, acc, arr, i, elems, blist, res_by_box, scalar_boxes, meta)
     acc.add('run_point_scalar_packed', '(num * num) * list box', 'option Z',
             ((C.num(float(fv[0])), C.num(float(fv[1]))), U.boxes_raw(sb)), res,
             {'kind': 'point', 'form': 'scalar', 'element': elems[i], 'boxes': [list(b) for b in sb],
-             'family': meta['family']})
+             'family': meta['family']}, 3 * len(sb))
     rep.count('scalar_cases:point')
 
 
@@ -465,6 +532,7 @@ def run(rep):
     for kind, elements, boxes, tag, junk, opts in families(rep, tier):
         t1 = time.time()
         run_family(rep, acc, kind, elements, boxes, tag, junk, **opts)
+        acc.flush()
         rep.count(f'family:{tag}:elements', len(elements))
         rep.count(f'family:{tag}:boxes', len(boxes))
         rep.extra.setdefault('family_seconds', {})[tag] = round(time.time() - t1, 1)
@@ -476,11 +544,9 @@ def run(rep):
     random_stream(rep, acc, tier)
     rep.extra['impl_seconds'] = round(time.time() - t0, 1)
     t0 = time.time()
-    for (fn, cty, rty), (cases, results, metas) in acc.jobs.items():
-        shard = max(1, min(300, math.ceil(len(cases) / (3 * C.NCPU))))
-        bad = C.coq_mismatches(IMPORTS, fn, cty, rty, cases, results, shard=shard, timeout=1500)
-        for i in bad[:MAXV]:
-            explain(rep, fn, cases[i], results[i], metas[i])
+    rep.extra['coq_cases'] = acc.ncases
+    for fn, case, result, meta in acc.collect()[:3 * MAXV]:
+        explain(rep, fn, case, result, meta)
     rep.extra['coq_seconds'] = round(time.time() - t0, 1)
     rep.extra['element_box_pairs'] = rep._c01_pairs
     rep.extra['scalar_calls'] = rep._c01_scalar
@@ -570,7 +636,9 @@ def random_case(rep, acc, kind, st, els, desc, arr, logical, boxes):
                              {**meta, 'index': i, 'element': logical[i], 'box': list(b), 'scalar': g,
                               'array': bool(r1[i])})
     acc.add(f'run_array_packed {MODEL_FN[kind]}', arr_ty(kind), ARR_RES_TY,
-            (rec, [C.Nat(i) for i in inds], U.boxes_raw(boxes)), results, meta)
+            (rec, [C.Nat(i) for i in inds], U.boxes_raw(boxes)), results, meta,
+            2 * Acc.COST[kind] * max(n, 1) * len(boxes))
+    meta['both'] = True
     rep.evaluations += 1
     rep.count(f'cases:{kind}')
     rep.count('random_cases')
@@ -598,11 +666,16 @@ def explain(rep, fn, case, result, meta):
              f'{kind} scalar intersects_bounds differs from the proven model',
              {**meta, 'impl_packed': result, 'model': model, 'buffers': case[:2]})
         return
-    model = parse_pairs(C.coq_eval(IMPORTS, f'{fn} {C.coq(case)}', timeout=900))
+    text = C.coq_eval(IMPORTS, f'{fn} {C.coq(case)}', timeout=900)
     boxes = meta['boxes']
-    for b, (m1, m2), (i1, i2) in zip(boxes, model, result):
-        i1 = None if i1 is None else i1.v
-        i2 = None if i2 is None else i2.v
+    if meta.get('both', True):
+        model = parse_pairs(text)
+        impl = [(None if a is None else a.v, None if b is None else b.v) for a, b in result]
+    else:
+        model = [(int(m.group(1)) if m.group(1) else None, None)
+                 for m in re.finditer(r'Some (\d+)|None', text)]
+        impl = [(None if a is None else a.v, None) for a in result]
+    for b, (m1, m2), (i1, i2) in zip(boxes, model, impl):
         for form, m, im in (('array', m1, i1), ('inds', m2, i2)):
             if m != im:
                 where = None
